@@ -256,7 +256,7 @@ def witness_plan():
     return {
         # C01
         "OverflowPartial": (Q(maxpubs=1, maxsubs=1, bufmax=1, hist=0, borrow=2, loan=1, overflow=True), [1], [1], [1], [0], 4),
-        "LateJoiner": (Q(maxpubs=1, maxsubs=1, bufmax=2, hist=2, borrow=2, loan=1, overflow=True), [1], [1], [2], [2], 3),
+        "LateJoiner": (Q(maxpubs=1, maxsubs=1, bufmax=3, hist=2, borrow=3, loan=1, overflow=True), [1], [1], [3], [2], 3),
         "PubDroppedInFlight": (Q(maxpubs=1, maxsubs=1, bufmax=2, hist=1, borrow=2, loan=2, overflow=True), [1], [1], [2], [0], 3),
         "ReconnectSub": (seq, [1], [1, 2], [2], [1], 3),
         "ReconnectPub": (seq, [1, 2], [1], [2], [0], 3),
@@ -467,7 +467,7 @@ def mc_phase(ctx, pid, insts, code_dependent):
     ctx.coverage["number_of_samples_read_from_code"] = {i[0]: n for i, n in zip(insts, ns)}
 
 
-def roundtrip(ctx, pid, targets, tail_fn, need_events, nsim, depth, ngen, steps, variants):
+def roundtrip(ctx, pid, targets, tail_fn, need_events, nsim, depth, ngen, steps, variants, scripted=()):
     """Generation (witnesses by trap invariants, tlc -simulate, the driver's seeded generator over the QoS
     grid) -> execution on the real API -> validation by TLC.  Returns (trace, jobs)."""
     quick, seed = ctx.quick, ctx.seed
@@ -485,6 +485,10 @@ def roundtrip(ctx, pid, targets, tail_fn, need_events, nsim, depth, ngen, steps,
             ctx.sample({"witness": t, "from": "TLC trap invariant" if t in regen else "cache (TLC trap invariant)",
                         "qos": short(q), "program": [describe(dict(e, k="op")) for e in wits[t]]})
     ctx.coverage["witnesses"] = {t: {"calls": len(wits[t]), "regenerated_by_tlc_in_this_run": t in regen} for t in targets}
+
+    for j in scripted:
+        jobs.append(j)
+        labels.append("scripted")
 
     sel = seed % 3
     simq = qos(maxpubs=2, maxsubs=3, bufmax=2, hist=2, borrow=2, loan=2, overflow=(sel == 0),
@@ -561,6 +565,65 @@ def replay_common(ctx, pid, path):
         return 1 if again else 0
     print(json.dumps(body.get("counterexample"), indent=1))
     return 0
+
+
+def history_matrix_jobs(variants):
+    """Scripted late-joiner programs: every legal (buffer, history request) pair against a publisher that
+    already sent three samples; the verdict comes from the trace validation like for every other program."""
+    jobs = []
+    for bufmax, hist, overflow in ((3, 2, True), (3, 2, False), (2, 1, True), (2, 2, False)):
+        q = qos(maxpubs=1, maxsubs=1, bufmax=bufmax, hist=hist, borrow=2, loan=1, overflow=overflow,
+                strategy="discard" if overflow else "retry_discard")
+        prog = [{"a": "create_pub", "p": 1}]
+        for _ in range(3):
+            prog += [{"a": "loan", "p": 1}, {"a": "send", "p": 1, "id": 0}]
+        s = 0
+        for buf in range(1, bufmax + 1):
+            for req in range(0, min(hist, buf) + 1):
+                s += 1
+                if s > 9:
+                    break
+                prog += [{"a": "create_sub", "s": s, "buf": buf, "req": req}, {"a": "has", "s": s}]
+                for _ in range(req + 1):
+                    prog += [{"a": "recv", "s": s}, {"a": "drop_sample", "s": s, "id": 0}]
+                prog += [{"a": "loan", "p": 1}, {"a": "send", "p": 1, "id": 0}, {"a": "loan", "p": 1},
+                         {"a": "send", "p": 1, "id": 0}, {"a": "recv", "s": s}, {"a": "recv", "s": s},
+                         {"a": "recv", "s": s}, {"a": "drop_sub", "s": s, "mode": "orderly"}]
+        for payload, variant in variants[:2]:
+            jobs.append({"cfg": dict(q, payload=payload, variant=variant), "program": prog})
+    return jobs
+
+
+def amplifier_jobs(variants):
+    """Scripted leak amplifier: with the smallest data segment every holder transition is repeated over
+    several subscriber / publisher generations; a single chunk leaked (or freed twice) per cycle ends in
+    OutOfMemory at a within-limit loan, a reused chunk in a canary mismatch."""
+    jobs = []
+    for overflow, hist, loan in ((True, 1, 1), (False, 1, 1), (True, 0, 2)):
+        q = qos(maxpubs=1, maxsubs=1, bufmax=1, hist=hist, borrow=1, loan=loan, overflow=overflow,
+                strategy="discard" if overflow else "retry_fail")
+        prog = [{"a": "create_pub", "p": 1}]
+        p = 1
+        for s in range(1, 10):
+            prog += [{"a": "create_sub", "s": s, "buf": 1, "req": min(hist, 1)}]
+            for _ in range(3):
+                prog += [{"a": "loan", "p": p}, {"a": "send", "p": p, "id": 0}]
+            prog += [{"a": "recv", "s": s}, {"a": "recv", "s": s}, {"a": "loan", "p": p}, {"a": "send", "p": p, "id": 0},
+                     {"a": "probe", "p": p}]
+            if s % 3 == 0:
+                prog += [{"a": "drop_sample", "s": s, "id": 0}, {"a": "recv", "s": s}]
+            if s % 2 == 0:
+                prog += [{"a": "drop_sub", "s": s, "mode": "orderly"}]
+            else:
+                prog += [{"a": "drop_sub", "s": s, "mode": "zombie"}, {"a": "loan", "p": p}, {"a": "send", "p": p, "id": 0},
+                         {"a": "drop_sample", "s": s, "id": 0}]
+            prog += [{"a": "update_pub", "p": p}, {"a": "probe", "p": p}, {"a": "loan", "p": p}, {"a": "drop_loan", "p": p, "id": 0}]
+            if s in (4, 7):
+                prog += [{"a": "drop_pub", "p": p}, {"a": "create_pub", "p": p + 1}, {"a": "probe", "p": p + 1}]
+                p += 1
+        for payload, variant in variants[:2]:
+            jobs.append({"cfg": dict(q, payload=payload, variant=variant), "program": prog})
+    return jobs
 
 
 def regen_witnesses():
